@@ -5,7 +5,10 @@
 (* outcomes, whether the request still waits.                               *)
 EXTENDS ClientDgram, Json
 
-CONSTANT MaxOps
+CONSTANTS MaxOps,
+          PathMode   \* TRUE: every behaviour (up to MaxOps) over one datagram per
+                     \* class is a case, emitted where it ends; FALSE: one case
+                     \* per transition of the state graph, full alphabet
 VARIABLE hist
 gvars == <<dvars, ndg, hist>>
 
@@ -15,12 +18,30 @@ GFaults == {[kind |-> "none", at |-> 0]}
 OutJson(o) == IF o.ok THEN [ok |-> o.f] ELSE [err |-> TRUE]
 RECURSIVE MapOut(_)
 MapOut(sq) == IF sq = <<>> THEN <<>> ELSE <<OutJson(Head(sq))>> \o MapOut(Tail(sq))
-Proj(s) == [sent |-> s.sent, done |-> MapOut(s.done), waiting |-> s.ph = "recv"]
+\* t: ticks between submission and completion (-1 while pending).  The
+\* specification completes a request no later than (1 + MaxRetries) * RD.
+Proj(s) == [sent |-> s.sent, done |-> MapOut(s.done), waiting |-> s.ph = "recv",
+            t |-> IF s.ph = "done" THEN s.waited ELSE -1]
+
+\* one datagram per class: the answer, an answer to another question, an
+\* answer with another ID / the previous attempt's ID, a header-only error,
+\* a query, garbage, a receive error
+RepAlphabet(s) ==
+  {[kind |-> "msg", f |-> f] :
+     f \in {Msg(s.att, TRUE, s.q, 0, TRUE, FALSE, -1),
+            Msg(s.att, TRUE, s.q + 1, 0, TRUE, FALSE, -1),
+            Msg(99, TRUE, s.q, 0, TRUE, FALSE, -1),
+            Msg(IF s.att > 1 THEN s.att - 1 ELSE 98, TRUE, s.q, 0, TRUE, FALSE, -1),
+            Msg(s.att, TRUE, NoQ, 2, FALSE, FALSE, -1),
+            Msg(s.att, FALSE, s.q, 0, FALSE, FALSE, -1)}}
+  \cup {[kind |-> "short", f |-> NoDgram.f], [kind |-> "ioerr", f |-> NoDgram.f]}
 
 OpsOf(s) ==      (IF s.ph = "idle" THEN {DMkOp("submit", 1, NoDgram)} ELSE {})
             \cup (IF s.ph = "recv" /\ ndg < MaxDgrams
-                  THEN {DMkOp("deliver", 0, d) : d \in DgramAlphabet(s)} ELSE {})
-            \cup (IF s.ph # "idle" THEN {DMkOp("tick", 0, NoDgram)} ELSE {})
+                  THEN {DMkOp("deliver", 0, d) :
+                          d \in IF PathMode THEN RepAlphabet(s) ELSE DgramAlphabet(s)} ELSE {})
+            \cup (IF s.ph = "recv" \/ (s.ph = "done" /\ ~PathMode)
+                  THEN {DMkOp("tick", 0, NoDgram)} ELSE {})
 
 OpJson(o) == CASE o.op = "submit"  -> [op |-> "submit", q |-> o.q]
                [] o.op = "deliver" -> [op |-> "deliver", d |-> o.d]
@@ -40,5 +61,6 @@ CaseOf(h) == ToJson([in |-> [kind |-> "dgram",
                              ops |-> [i \in 1..Len(h) |-> OpJson(h[i].op)]],
                      exp |-> [i \in 1..Len(h) |-> h[i].proj]])
 EmitTransition == PrintT("CASE " \o CaseOf(hist'))
+EmitPaths == (Len(hist') = MaxOps \/ ph' = "done") => PrintT("CASE " \o CaseOf(hist'))
 GenView == <<dvars, ndg>>
 =============================================================================
